@@ -358,9 +358,6 @@ def r5_ratelimit(chk: Check) -> None:
                 d = f"<session>.{c.func.attr}"  # type: ignore[union-attr]
                 n_sites += 1
                 construct = f"{d}(...) under ratelimit"
-                if rel == "engine/phases/probes.py":
-                    chk.ok("C12.R5", fn, construct, "named suppression: single capability probe before the run, not generated traffic", fn.loc(c))
-                    continue
                 limited = False
                 for a in ancestors(c):
                     if isinstance(a, ast.With) and any(isinstance(i.context_expr, ast.Call) and last_attr(i.context_expr) == "ratelimit" and "rate_limiter" in unparse(i.context_expr, 200) for i in a.items):
